@@ -144,6 +144,15 @@ def gen_consts(repo):
     if len(lim) != 1:
         raise ExtractError("qmail-qmtpd.c: address length limits not uniform: %s" % sorted(lim))
     c["qmtpAddrMax"] = int(lim.pop())
+    # the inner length loop of the recipient list: is there a digit check (as in getlen) or not?
+    m = re.search(r"if\s*\(!biglen\)\s*badproto\(\);\s*substdio_get\(&ssin,&ch,1\);\s*--biglen;\s*if\s*\(ch\s*==\s*':'\)\s*break;\s*"
+                  r"if\s*\(len\s*>\s*(\d+)\)\s*resources\(\);\s*(if\s*\(\s*ch\s*<\s*'0'\s*\|\|\s*ch\s*>\s*'9'\s*\)\s*badproto\(\);\s*)?"
+                  r"len\s*=\s*10\s*\*\s*len\s*\+\s*\(ch\s*-\s*'0'\);", _strip_comments(t))
+    if not m:
+        raise ExtractError("qmail-qmtpd.c: inner recipient length loop not in the expected shape")
+    if int(m.group(1)) != c["qmtpLenMax"]:
+        raise ExtractError("qmail-qmtpd.c: different length limits in getlen() and the recipient loop")
+    c["qmtpRcptDigitCheck"] = 1 if m.group(2) else 0
     p = read(repo, "qmail-qmqpd.c")
     for name, pat in (("qmqpBuf", r"^char\s+buf\s*\[\s*(\d+)\s*\]"), ("qmqpAddrMax", r"if\s*\(len\s*>=\s*(\d+)\)"),
                       ("qmqpLenMax", r"if\s*\(len\s*>\s*(\d+)\)\s*resources\(\)"), ("qmqpOuterDigits", r"unsigned\s+long\s+bytesleft\s*=\s*(\d+)\s*;")):
